@@ -64,7 +64,7 @@ From RZ.proofs Require Import ExprCorrect.
    value is that value and the model's result type is the C type. *)
 Theorem C02_operators_correct_repaired :
   forall (cfg : config) (rw : regwidth) (IM : string -> bool) (E : cenv) (csub : csubs) xi V e st,
-  cfg_fx cfg = all_fixes -> cfg_params cfg = [] -> macs_std (cfg_macros cfg) -> subs_ext (cfg_subs cfg) -> csub_ext csub ->
+  cfg_fx cfg = all_fixes -> cfg_params cfg = [] -> macs_std (cfg_macros cfg) -> subs_ext (cfg_subs cfg) -> csub_ext csub -> xi_ok xi ->
   lst_ok IM V st -> pfrag rw IM V e ->
   exists pv st', lower_expr cfg e st = OK (IPure pv, st') /\ st_ext st st' /\ lst_ok IM V st' /\
     forall R rem, regs_le (st_regs st') R -> norem rem ->
@@ -78,7 +78,7 @@ Print Assumptions C02_operators_correct_repaired.
    does not depend on the repair switches" *)
 Theorem C02_operators_correct_partial :
   forall (cfg : config) (rw : regwidth) (IM : string -> bool) (E : cenv) (csub : csubs) xi V e st,
-  cfg_params cfg = [] -> macs_std (cfg_macros cfg) -> subs_ext (cfg_subs cfg) -> csub_ext csub ->
+  cfg_params cfg = [] -> macs_std (cfg_macros cfg) -> subs_ext (cfg_subs cfg) -> csub_ext csub -> xi_ok xi ->
   lst_ok IM V st -> pfrag rw IM V e ->
   lower_expr cfg e st = lower_expr (with_fx all_fixes cfg) e st ->
   exists pv st', lower_expr cfg e st = OK (IPure pv, st') /\ st_ext st st' /\ lst_ok IM V st' /\
@@ -87,7 +87,7 @@ Theorem C02_operators_correct_partial :
       exists ilv, eval rw ms [] (fin_pure R rem (pv_term pv)) = Some ilv /\ shape_pv pv ilv /\
         forall fuel cs' cv, ceval E csub xi fuel cs e = Some (cs', cv) -> cs' = cs /\ agrees pv cv ilv.
 Proof.
-  intros cfg rw IM E csub xi V e st Hp Hm Hs Hc HV Hf Heq. rewrite Heq.
+  intros cfg rw IM E csub xi V e st Hp Hm Hs Hc Hx HV Hf Heq. rewrite Heq.
   apply (expr_correct_unconditional (with_fx all_fixes cfg) rw IM E csub xi V e st); auto.
 Qed.
 Print Assumptions C02_operators_correct_partial.
